@@ -130,7 +130,7 @@ func vfCkRestore(id string, cp *checkpoint, key string) (restored channel, outco
 	}()
 	ctx := context.Background()
 	store := &vfCkStore{m: map[string][]byte{}}
-	cpr := newCheckPointer(nil, nil, store)
+	cpr := newCheckPointer(nil, nil, nil, store)
 	if err := cpr.set(ctx, id, cp); err != nil {
 		return nil, "err", err.Error()
 	}
@@ -218,7 +218,7 @@ func TestVerifCkpt(t *testing.T) {
 	if _, ok := ExtractInterruptInfo(err); !ok {
 		t.Fatalf("verif: expected an interrupt, got %v", err)
 	}
-	cpr := newCheckPointer(nil, nil, store)
+	cpr := newCheckPointer(nil, nil, nil, store)
 	back, ok, err := cpr.get(ctx, "cp")
 	if err != nil || !ok {
 		t.Fatalf("verif: stored checkpoint unreadable: %v %v", ok, err)
